@@ -4,6 +4,8 @@
 use crate::choice::{Choices, ChoicesExt};
 use crate::run::*;
 use crate::subj::SubHandle;
+#[allow(unused_imports)]
+use crate::tworld;
 use crate::vtime::{self, as_ticks, ticks, Mode, VSched};
 use rxrust::prelude::*;
 use serde_json::json;
@@ -14,9 +16,13 @@ pub fn prop() -> Prop {
   Prop {
     id: "C19",
     rule: "case = (1..4 tasks handed to the scheduler at t=0 or later: one-shot (OnceTask, NormalReturn), subscribing one-shot (OnceTask, SubscribeReturn of a probe subscription), repeating (RepeatTask with period 1..3 that declines after k runs), future-driven (FutureTask over a future that waits on the clock); delay none / 0 / 1 / 3 ticks; history of <= 10 steps: advance the clock, run the executor, run the i-th ready task, cancel handle i (unsubscribe), sample is_closed() of handle i, schedule the next task; executor FIFO-prompt, FIFO-late or any-ready-task-next). \
-           Oracle: a one-shot body runs at most once and, once everything due has been run, exactly once unless cancelled before; never before (time it was scheduled + delay); a repeating task's sequence numbers are 0,1,2,... one period apart at least, and it stops for good when it declines or is cancelled; after unsubscribe() returned the body never starts; a subscribing task cancelled after it ran has its product unsubscribed exactly once, cancelled before it ran never creates one; once is_closed() returned true the body does not run later. Non-trivial: a cancel between scheduling and completion, or >= 2 tasks ready at once. Distinct by hash(case).",
-    assumptions: &["single thread: 'not running when unsubscribe returns' is the engine-T part's job"],
-    parts: vec![Part { name: "task-histories", run: run_case, tape_len: 64, quick_cases: 600_000, thorough_cases: 12_000_000, exhaustive_depth: None, exhaustive_budget: 0, exh_quick: false }],
+           Oracle: a one-shot body runs at most once and, once everything due has been run, exactly once unless cancelled before; never before (time it was scheduled + delay); a repeating task's sequence numbers are 0,1,2,... one period apart at least, and it stops for good when it declines or is cancelled; after unsubscribe() returned the body never starts; a subscribing task cancelled after it ran has its product unsubscribed exactly once, cancelled before it ran never creates one; once is_closed() returned true the body does not run later. Non-trivial: a cancel between scheduling and completion, or >= 2 tasks ready at once. Distinct by hash(case). \
+           Part `threads` (engine T): a one-shot or subscribing task (delay none or 1 tick) is scheduled on a harness-driven multi-thread scheduler (VerifSpawner); a worker thread polls queued tasks / advances the clock while another thread calls unsubscribe() on the handle and raises a flag when it has returned; the task body contains a yield point between an enter and a leave mark; schedule = <= 3 preemptions. Oracle: the body is not entered with the flag raised and is not inside (entered, not left) at the moment the flag is raised; the product of a subscribing task that ran is unsubscribed exactly once after a cancel.",
+    assumptions: &["threads part: sequentially consistent interleavings at lock-acquisition granularity plus one yield inside the task body"],
+    parts: vec![
+      Part { name: "task-histories", run: run_case, tape_len: 64, quick_cases: 600_000, thorough_cases: 12_000_000, exhaustive_depth: None, exhaustive_budget: 0, exh_quick: false },
+      Part { name: "threads", run: run_threads, tape_len: 24, quick_cases: 20_000, thorough_cases: 500_000, exhaustive_depth: None, exhaustive_budget: 0, exh_quick: false },
+    ],
   }
 }
 
@@ -340,4 +346,127 @@ fn run_case(c: &mut dyn Choices, ctx: &Ctx) -> Outcome {
     None
   };
   Outcome { verdict, nontrivial: nt, hash: hash_of(&case), labels, notes: vec![], desc }
+}
+
+
+// ------------------------------------------------------------ engine T part
+
+struct TWorld {
+  marks: std::sync::Mutex<Vec<(&'static str, bool)>>, // (mark, flag raised at that moment)
+  flag: std::sync::atomic::AtomicBool,
+  product_unsubs: std::sync::atomic::AtomicUsize,
+}
+struct TProduct(std::sync::Arc<TWorld>);
+impl Subscription for TProduct {
+  fn unsubscribe(self) {
+    self.0.product_unsubs.fetch_add(1, std::sync::atomic::Ordering::SeqCst);
+  }
+  fn is_closed(&self) -> bool {
+    false
+  }
+}
+fn t_enter(w: &std::sync::Arc<TWorld>) {
+  let f = w.flag.load(std::sync::atomic::Ordering::SeqCst);
+  w.marks.lock().unwrap().push(("enter", f));
+  crate::engine_t::explicit_yield();
+  let f = w.flag.load(std::sync::atomic::Ordering::SeqCst);
+  w.marks.lock().unwrap().push(("leave", f));
+}
+fn t_once(w: std::sync::Arc<TWorld>) -> NormalReturn<()> {
+  t_enter(&w);
+  NormalReturn::new(())
+}
+fn t_once_sub(w: std::sync::Arc<TWorld>) -> SubscribeReturn<TProduct> {
+  t_enter(&w);
+  SubscribeReturn::new(TProduct(w))
+}
+
+fn run_threads(c: &mut dyn Choices, ctx: &Ctx) -> Outcome {
+  use crate::engine_t::{self, Verdict as TV};
+  use crate::tworld::TaskQueue;
+  use std::sync::atomic::Ordering;
+  use std::sync::Arc;
+  let subscribing = c.flag();
+  let delay = if c.flag() { Some(1u64) } else { None };
+  let w_ops: Vec<bool> = (0..(1 + c.pick(4))).map(|_| c.pick(3) == 0).collect(); // true = advance
+  let cancel_after: usize = c.pick(2); // canceller first does this many no-op yields
+  let k = c.pick(4);
+  let mut preemptions: Vec<(u64, usize)> = (0..k).map(|_| (1 + c.pick(20) as u64, c.pick(2))).collect();
+  preemptions.sort();
+  preemptions.dedup_by_key(|p| p.0);
+
+  crate::vtime::reset(crate::vtime::Mode::Fifo);
+  let world = Arc::new(TWorld { marks: Default::default(), flag: Default::default(), product_unsubs: Default::default() });
+  let queue = Arc::new(TaskQueue::default());
+  let sched = queue.spawner();
+  let d = delay.map(ticks);
+  let handle: Box<dyn SubHandle + Send> = if subscribing {
+    Box::new(sched.schedule(OnceTask::new(t_once_sub, world.clone()), d))
+  } else {
+    Box::new(sched.schedule(OnceTask::new(t_once, world.clone()), d))
+  };
+  let worker: Box<dyn FnOnce() + Send> = {
+    let q = queue.clone();
+    let ops = w_ops.clone();
+    Box::new(move || {
+      for adv in ops {
+        if adv {
+          crate::vtime::advance(ticks(1), false);
+        } else {
+          q.run_one();
+        }
+      }
+    })
+  };
+  let canceller: Box<dyn FnOnce() + Send> = {
+    let w = world.clone();
+    Box::new(move || {
+      for _ in 0..cancel_after {
+        engine_t::explicit_yield();
+      }
+      engine_t::call_begin();
+      handle.unsubscribe();
+      w.flag.store(true, Ordering::SeqCst);
+      let inside = {
+        let m = w.marks.lock().unwrap();
+        m.iter().filter(|(k, _)| *k == "enter").count() > m.iter().filter(|(k, _)| *k == "leave").count()
+      };
+      if inside {
+        w.marks.lock().unwrap().push(("flag-raised-while-inside", true));
+      }
+      engine_t::call_end();
+    })
+  };
+  let stats = engine_t::run_threads(vec![worker, canceller], preemptions.clone(), 2_000);
+  if stats.verdict == TV::Completed {
+    for _ in 0..4 {
+      while queue.run_one() {}
+      crate::vtime::advance(ticks(1), false);
+    }
+  }
+  let marks = world.marks.lock().unwrap().clone();
+  let name = if subscribing { "once-subscribing" } else { "once" };
+  let verdict = match &stats.verdict {
+    TV::Completed => {
+      let ran = marks.iter().any(|(k, _)| *k == "enter");
+      if marks.iter().any(|(k, f)| *k == "enter" && *f) {
+        Verdict::Violation { sig: format!("threads:started-after-cancel:{name}"), detail: format!("the task body was entered after unsubscribe() had returned: {marks:?}") }
+      } else if marks.iter().any(|(k, _)| *k == "flag-raised-while-inside") {
+        Verdict::Violation { sig: format!("threads:still-running:{name}"), detail: format!("unsubscribe() returned while the task body was still running: {marks:?}") }
+      } else if marks.iter().filter(|(k, _)| *k == "enter").count() > 1 {
+        Verdict::Violation { sig: format!("threads:ran-twice:{name}"), detail: format!("{marks:?}") }
+      } else if subscribing && world.product_unsubs.load(Ordering::SeqCst) != ran as usize {
+        Verdict::Violation { sig: format!("threads:product:{name}"), detail: format!("the task {} and was cancelled, but its product was unsubscribed {} time(s)", if ran { "ran" } else { "never ran" }, world.product_unsubs.load(Ordering::SeqCst)) }
+      } else {
+        Verdict::Ok
+      }
+    }
+    other => Verdict::Violation { sig: format!("threads:{}:{name}", match other { TV::Deadlock(_) => "deadlock", TV::LostWakeup(_) => "lost-wakeup", TV::Panic(_) => "panic", _ => "livelock" }), detail: format!("{other:?}") },
+  };
+  let desc = if ctx.want_desc || matches!(verdict, Verdict::Violation { .. }) {
+    Some(json!({"task": name, "delay": delay, "worker(true=advance,false=run one task)": w_ops, "canceller_waits": cancel_after, "preemptions(step->thread; 0=worker 1=canceller)": preemptions, "marks(mark, flag)": format!("{marks:?}")}))
+  } else {
+    None
+  };
+  Outcome { verdict, nontrivial: stats.preemptions_taken > 0, hash: hash_of(&(subscribing, delay, &w_ops, cancel_after, &preemptions)), labels: vec!["part:threads"], notes: vec![], desc }
 }
